@@ -55,7 +55,7 @@ def _set_points():
 
 
 def make_msgs(spec):
-    """spec: tuple of kinds per message: 'ok' | 'bad' (cannot be encoded) | 'big'."""
+    """spec: tuple of kinds per message: 'ok' | 'bad' (its AVPs cannot be built) | 'bad2' (fails part-way through packing) | 'big'."""
     from diameter.message.commands import DeviceWatchdogRequest, AccountingRequest
     out = []
     for i, kind in enumerate(spec):
@@ -72,7 +72,13 @@ def make_msgs(spec):
             m = DeviceWatchdogRequest()
             m.origin_host = b"node.example.org"
             m.origin_realm = b"example.org"
-            m.origin_state_id = 7 + i if kind == "ok" else "not-an-integer"
+            m.origin_state_id = 7 + i if kind in ("ok", "bad2") else "not-an-integer"
+            if kind == "bad2":
+                # fails while it is being packed, after its first AVPs have been packed: an AVP code that does not fit 32 bits
+                from diameter.message.avp import Avp
+                broken = Avp.new(1, value="user")
+                broken.code = 1 << 40
+                m.append_avp(broken)
         m.header.hop_by_hop_identifier = 0x100 + i
         m.header.end_to_end_identifier = 0x200 + i
         out.append(m)
@@ -93,30 +99,47 @@ def execute(cfg, prefix):
         if conn is None or conn.state != 0x12:
             raise sk.HarnessError("set-up: connection not ready")
         base = len(s.fs.sent)
-        msgs = make_msgs(spec)
+        with_dpr = "DPR" in spec
+        msgs = make_msgs(tuple(k for k in spec if k != "DPR"))
         for name in plan:
             s.fs.send_plan.append(SEND_OPTS[name])
         # split the messages over the producer threads round-robin
         shares = [msgs[i::producers] for i in range(producers)]
 
-        log = []          # ("call"|"ret", message index) in kernel order: only one simulated thread runs at a time
+        # every message handed to this connection during the window, whoever queues it (producers, or the node's own reader answering
+        # a DPR), with the kernel-order interval of its queueing call: only one simulated thread runs at a time
+        allmsgs = list(msgs)
+        log = []
+        orig_add = conn.add_out_msg
+
+        def add_out_msg(m):
+            if not any(m is x for x in allmsgs):
+                allmsgs.append(m)
+            k = next(i for i, x in enumerate(allmsgs) if x is m)
+            log.append(("call", k))
+            try:
+                return orig_add(m)
+            finally:
+                log.append(("ret", k))
+        conn.add_out_msg = add_out_msg
 
         def produce(lst):
             for m in lst:
-                log.append(("call", msgs.index(m)))
                 nw.node.send_message(conn, m)
-                log.append(("ret", msgs.index(m)))
         nw.world.points_on = True
         ch.window = True
         for i, lst in enumerate(shares):
             sk.spawn(functools.partial(produce, lst), f"producer{i}")
+        if with_dpr:
+            # the peer's DPR arrives in the same instant: its DPA is queued by the connection's reader thread
+            nw.deliver(s.fs, sc.message(s, "dpr"), run=False)
         nw.run()
         ch.window = False
         nw.world.points_on = False
         nw.world.advance(6)
         nw.world.advance(6)
         enc = {}
-        for i, m in enumerate(msgs):
+        for i, m in enumerate(allmsgs):
             try:
                 enc[i] = m.as_bytes()
             except Exception:
@@ -124,10 +147,10 @@ def execute(cfg, prefix):
         # queueing order.  Exact when every message went through one queue of the connection (the shim records acceptance order);
         # otherwise the order of the queueing calls: a call that returned before another began comes first, overlapping calls
         # may go either way.
-        queues = [v for v in vars(conn).values() if isinstance(v, sk.SimQueue) and all(any(m is a for a in v.accepted) for m in msgs)]
+        queues = [v for v in vars(conn).values() if isinstance(v, sk.SimQueue) and all(any(m is a for a in v.accepted) for m in allmsgs)]
         got = bytes(s.fs.sent[base:])
         if len(queues) == 1:
-            order = tuple(msgs.index(m) for m in queues[0].accepted if m in msgs)
+            order = tuple(next(i for i, x in enumerate(allmsgs) if x is m) for m in queues[0].accepted if any(m is x for x in allmsgs))
             cands = [order]
         else:
             before = set()
@@ -137,7 +160,8 @@ def execute(cfg, prefix):
                     before |= {(d, i) for d in done}
                 else:
                     done.add(i)
-            cands = [p for p in itertools.permutations(range(len(msgs))) if all(p.index(a) < p.index(b) for a, b in before)]
+            called = sorted({i for _, i in log})
+            cands = [p for p in itertools.permutations(called) if all(p.index(a) < p.index(b) for a, b in before)] or [tuple(called)]
             order = cands[0]
         expected = None
         for p in cands:
@@ -148,7 +172,7 @@ def execute(cfg, prefix):
                 expected, order = e, p
                 break
         left = len(conn.write_buffer)
-        obs = (got == expected, tuple(order), len(got), len(expected), left, s.fs.closed, tuple(nw.thread_failures()),
+        obs = (got == expected, tuple(order), len(got), len(expected), left, s.fs.closed and not with_dpr, tuple(nw.thread_failures()),
                got.hex() if got != expected else "", expected.hex() if got != expected else "")
         return obs, ch
     finally:
@@ -188,6 +212,10 @@ def configs(tier):
     # an unencodable message between two good ones; two and three producers
     out.append(((("ok", "bad", "ok"), 1, ()), 2))
     out.append(((("ok", "ok", "ok"), 1, ()), 2))
+    out.append(((("ok", "bad2", "ok", "ok"), 1, ()), 1))
+    out.append(((("ok", "ok", "DPR"), 1, ()), 1))
+    out.append(((("ok", "ok", "DPR"), 2, ("half",)), 1))
+    out.append(((("bad2", "ok"), 2, ("half",)), 1))
     out.append(((("ok", "bad", "ok"), 1, ("1",)), 1 if tier != "thorough" else 2))
     out.append(((("bad", "ok"), 2, ("half",)), 1 if tier != "thorough" else 2))
     out.append(((("ok", "ok"), 2, ()), 2))
